@@ -165,6 +165,12 @@ def execute(mat, ctx):
                 except RuntimeError:
                     continue
                 ntext = rot_left(nm["seq"], rng.randrange(len(nm["seq"])))
+                hcase = (len(ntext) + ord(ntext[0])) % 5
+                if hcase == 0:
+                    # a few edited bases shown in lower case by a sequence editor
+                    ntext = "".join(c.lower() if (i * 7 + len(ntext)) % 11 == 0 else c for i, c in enumerate(ntext))
+                elif hcase == 1:
+                    ntext = ntext.lower()
                 t2 = list(texts)
                 t2[pos] = ntext
                 cls2 = list(classes)
